@@ -4,6 +4,8 @@
   bit with the real ConfigHash on every run.
 -/
 import Kvass.Pins.Cfg
+import Kvass.Pins.Coord
+import Kvass.Pins.Sidecar
 import Kvass.Model.HStruct
 
 namespace Kvass.Props.C16
